@@ -232,8 +232,14 @@ def asyncResponse (s : St) (num : Nat) (r : Resp) : Option St :=
 def startPrefetch (s : St) (chunks : List Chunk) (cap : Option Nat) : St :=
   { s with prefetching := true, done := false, threads := s.threads ++ [{ st := .idle chunks, cap := cap }] }
 
-def setThread (s : St) (i : Nat) (st : TSt) : St :=
-  { s with threads := s.threads.modify i (fun t => { t with st := st }) }
+def setThread (s : St) (i : Nat) (st : TSt) (cap : Option Nat) : St :=
+  { s with threads := s.threads.set i { st := st, cap := cap } }
+
+/-- `pf_len < max_concurrent_requests` (no cap: always) -/
+def capPass (cap : Option Nat) (n : Nat) : Bool :=
+  match cap with
+  | none => true
+  | some m => decide (n < m)
 
 /-! ## the step relation (none = not enabled) -/
 
@@ -251,24 +257,23 @@ def step (s : St) : Act → Option St
   | .tCheck i =>
     match s.threads[i]? with
     | some ⟨.idle (c :: rest), cap⟩ =>
-      let pass := match cap with | none => true | some m => decide (s.extents.length < m)
-      if pass then some (setThread s i (.checked (c :: rest))) else none
+      if capPass cap s.extents.length then some (setThread s i (.checked (c :: rest)) cap) else none
     | _ => none
   | .tAlloc i =>
     match s.threads[i]? with
-    | some ⟨.checked (c :: rest), _⟩ =>
+    | some ⟨.checked (c :: rest), cap⟩ =>
       let num := s.info.length
-      some { setThread s i (.allocd num c.1 c.2 rest) with info := s.info ++ [⟨c.1, c.2, .pf i⟩] }
+      some { setThread s i (.allocd num c.1 c.2 rest) cap with info := s.info ++ [⟨c.1, c.2, .pf i⟩] }
     | _ => none
   | .tSend i =>
     match s.threads[i]? with
-    | some ⟨.allocd num off len rest, _⟩ =>
-      some { setThread s i (.sent num off len rest) with c2s := s.c2s ++ [num] }
+    | some ⟨.allocd num off len rest, cap⟩ =>
+      some { setThread s i (.sent num off len rest) cap with c2s := s.c2s ++ [num] }
     | _ => none
   | .tReg i =>
     match s.threads[i]? with
-    | some ⟨.sent num off len rest, _⟩ =>
-      some { setThread s i (.idle rest) with extents := dictSet s.extents num (off, len) }
+    | some ⟨.sent num off len rest, cap⟩ =>
+      some { setThread s i (.idle rest) cap with extents := dictSet s.extents num (off, len) }
     | _ => none
   | .rOp op =>
     match s.pc with
